@@ -93,7 +93,7 @@ func checkC08(c *Check, p *Program) {
 		tIdx, tE3, tE2 = tIdx+a, tE3+b, tE2+e
 	}
 	c.Analysed("functions", fmt.Sprintf("%d functions of package dpt (Unpack, String, Unit, IsValid, unpack helpers)", len(fns)))
-	c.Floor("C08.panic", "decode/render functions judged", len(fns), 520)
+	c.Floor("C08.panic", "decode/render functions judged", len(fns), 450)
 	c.Note("index/slice expressions: %d; compiler-proved %d; guard-proved %d", tIdx, tE3, tE2)
 	// binary.BigEndian.UintNN(data[1:]) needs len(data[1:]) >= N/8: judged as a length-guard obligation
 	for _, fn := range fns {
